@@ -32,8 +32,15 @@ def one(rng, name, pairs, forge):
     if forge == 1 and pairs > 0:
         p.setw(o, (p.val(o) ^ 1) % R); p.unsat(); p.tags.append("forged-output")
     elif forge == 2 and pairs > 0:
-        # forge one product wire: the first quad's product (witness index: 6 + 2 inputs + 2)
-        p.op("setw #%d %s" % (p.nwit0 + 2 + 2, hx((va * 0 + 5) % R))); p.unknown(); p.tags.append("forged-product-wire")
+        # forge the product wire of the first (most significant) quad. If the per-quad polynomial has another root,
+        # use it: then ONLY the `w = a*b` component of the widget rejects the assignment (historical bug class)
+        m = (1 << (2 * pairs)) - 1
+        aq, bq = ((va & m) >> (2 * (pairs - 1))) & 3, ((vb & m) >> (2 * (pairs - 1))) & 3
+        alts = logic_alt_roots(aq, bq, name == "xor")
+        if alts:
+            p.op("setw #%d %s" % (p.nwit0 + 2 + 2, hx(alts[0]))); p.unsat(); p.tags.append("forged-product-wire-other-root")
+        else:
+            p.op("setw #%d %s" % (p.nwit0 + 2 + 2, hx(5))); p.unsat(); p.tags.append("forged-product-wire")
     return p.case()
 
 
@@ -51,7 +58,8 @@ def cases(rng, tier):
 def run(ctx, broken):
     rng = SplitMix(ctx.seed * 1000003 + 10)
     r = ProgRunner(ctx, "C10")
-    r.run(cases(rng, ctx.tier))
+    from props.c05 import cancel_cases
+    r.run(cases(rng, ctx.tier) + cancel_cases(rng, ("logic",), 1 if ctx.tier == "quick" else 8))
     st = r.report(broken)
     st["exhaustive_in_width"] = True
     st["rule"] = ("both operations x every pair count 0..=127 (layout exhaustive); inputs all-ones, r-1, pairs differing only "
